@@ -454,15 +454,43 @@ def recording(inner):
     return type(type(inner).__name__, (Recording,), {})(inner)
 
 
+def load_via_cosim(scenario: Path, spec: Dict[str, Any], gens: Optional[Sequence[Any]] = None):
+    """Load through the co-simulation entry point itself (hive_cosim.load_scenario, which also seeds the global RNGs). It
+    takes no configuration object, so logging is switched off the way a user would: a .hive.yaml next to the scenario, found
+    from the working directory (changed for the duration of the load only)."""
+    import os
+
+    from nrel.hive.app import hive_cosim
+    from nrel.hive.initialization.initialize_simulation import default_init_functions
+
+    d = Path(scenario).parent
+    (d / ".hive.yaml").write_text(yaml.safe_dump({
+        "output_base_directory": str(d / "out"), "log_run": False, "log_states": False, "log_events": False, "log_kepler": False,
+        "log_stats": False, "log_instructions": False, "log_time_step_stats": False, "log_fleet_time_step_stats": False,
+        "log_station_capacities": False, "lazy_file_reading": bool(spec.get("lazy")), "verbose": False}))
+    inits = [osm_init] + list(default_init_functions()) if spec.get("net") in ("gen", "denver") else None
+    cwd = os.getcwd()
+    os.chdir(d)
+    try:
+        with quiet():
+            return hive_cosim.load_scenario(Path(scenario), custom_instruction_generators=tuple(gens) if gens is not None else None,
+                                            custom_init_functions=inits)
+    finally:
+        os.chdir(cwd)
+
+
 class World:
     """A loaded world: scratch dir + RunnerPayload; `close()` removes every trace."""
 
     def __init__(self, spec: Dict[str, Any], gens=None, real_handlers: bool = False, end_steps: int = 2000,
-                 builtin_first: bool = False):
+                 builtin_first: bool = False, via_cosim: bool = False):
         self.spec = spec
         self.dir = new_scratch()
         try:
             self.scenario = write_world(spec, self.dir, end_steps=end_steps)
+            if via_cosim:
+                self.rp = load_via_cosim(self.scenario, spec, gens)
+                return
             self.rp = load_scenario(self.scenario, gens=gens, real_handlers=real_handlers, lazy=spec.get("lazy"),
                                     builtin_first=builtin_first, log_types=spec.get("log_types"))
         except BaseException:
